@@ -11,26 +11,65 @@ struct Owners {
     task: Vec<Option<u8>>,
 }
 
+/// which subscription is being set up at this point: the innermost nested-subscription frame
+/// (`Send(Probe q, Hs)`), else the top-level `Subscribe(p)` event
+fn subscribing_probe(stack: &[Frame], top: Option<EvId>) -> Option<u8> {
+    for fr in stack.iter().rev() {
+        if let (Actor::Probe(q), M::Hs, true) = (fr.actor, fr.msg, fr.is_send) {
+            return Some(q);
+        }
+    }
+    match top {
+        Some(EvId::Subscribe(p)) => Some(p),
+        _ => None,
+    }
+}
+
 fn compute_owners(ex: &Exec) -> Owners {
     let sub = owners(ex);
     let mut task: Vec<Option<u8>> = vec![];
-    let mut top: Option<EvId> = None;
-    for ev in &ex.trace {
-        match ev {
-            Ev::Top(e) => top = Some(*e),
-            Ev::Spawn(t, true) => {
-                while task.len() <= *t as usize {
-                    task.push(None);
-                }
-                task[*t as usize] = match top {
-                    Some(EvId::Subscribe(p)) => Some(p),
-                    _ => None,
-                };
-            },
-            _ => {},
+    walk(ex, |_i, ev, stack, top| {
+        if let Ev::Spawn(t, true) = ev {
+            while task.len() <= *t as usize {
+                task.push(None);
+            }
+            task[*t as usize] = subscribing_probe(stack, top);
         }
-    }
+    });
     Owners { sub, task }
+}
+
+/// owner of the subscription being set up when trace position `tpos` was reached
+fn subscribing_probe_at(ex: &Exec, tpos: usize) -> Option<u8> {
+    let mut res = None;
+    let mut done = false;
+    walk(ex, |i, _ev, stack, top| {
+        if i == tpos && !done {
+            res = subscribing_probe(stack, top);
+            done = true;
+        }
+    });
+    if !done {
+        // the choice was made after the last recorded event: reconstruct the final stack
+        let mut stack: Vec<Frame> = vec![];
+        let mut top = None;
+        for (i, ev) in ex.trace.iter().enumerate() {
+            match ev {
+                Ev::Top(e) => {
+                    stack.clear();
+                    top = Some(*e);
+                },
+                Ev::In(a, m) => stack.push(Frame { actor: *a, msg: *m, is_send: false, start: i }),
+                Ev::Send(a, m) => stack.push(Frame { actor: *a, msg: *m, is_send: true, start: i }),
+                Ev::Out(_) | Ev::Ret(_) => {
+                    stack.pop();
+                },
+                _ => {},
+            }
+        }
+        res = subscribing_probe(&stack, top);
+    }
+    res
 }
 
 struct Renamer<'a> {
@@ -115,11 +154,16 @@ fn project(ex: &Exec, own: &Owners, x: u8) -> (VecDeque<GuideRec>, Vec<Ev>) {
     let mut out: Vec<Ev> = vec![];
     let mut keep_idx: Vec<bool> = vec![false; ex.trace.len()];
     let mut top_is_x = false;
+    // start indices of nested-subscription frames (Send(Probe x, Hs)) whose Ret must be dropped
+    let mut synth: Vec<usize> = vec![];
     walk(ex, |i, ev, stack, _| {
         let mine_ctx = match stack.last() {
             Some(fr) => r.actor(fr.actor).is_some(),
             None => top_is_x,
         };
+        // a probe action of X performed from inside another subscription's handler is a
+        // top-level event of X's own history
+        let cross = !top_is_x && !stack.iter().any(|fr| r.actor(fr.actor).is_some());
         let e2: Option<Ev> = match ev {
             Ev::Top(e) => {
                 let m = r.evid(*e);
@@ -128,6 +172,20 @@ fn project(ex: &Exec, own: &Owners, x: u8) -> (VecDeque<GuideRec>, Vec<Ev>) {
             },
             Ev::In(a, m) => r.actor(*a).map(|a| Ev::In(a, *m)),
             Ev::Out(a) => r.actor(*a).map(Ev::Out),
+            Ev::Send(Actor::Probe(p), M::Hs) if *p == x => {
+                // nested subscription of X: the forced first step of its solo run
+                synth.push(i);
+                Some(Ev::Top(EvId::Subscribe(0)))
+            },
+            Ev::Send(Actor::Probe(p), m) if *p == x && cross => {
+                out.push(Ev::Top(match m {
+                    M::Pull => EvId::ProbePull(0),
+                    M::Err(_) => EvId::ProbeErr(0),
+                    _ => EvId::ProbeTerm(0),
+                }));
+                Some(Ev::Send(Actor::Probe(0), *m))
+            },
+            Ev::Ret(Actor::Probe(p)) if *p == x && stack.last().map(|fr| synth.contains(&fr.start)).unwrap_or(false) => None,
             Ev::Send(a, m) => r.actor(*a).map(|a| Ev::Send(a, *m)),
             Ev::Ret(a) => r.actor(*a).map(Ev::Ret),
             Ev::Call(id, v) => mine_ctx.then_some(Ev::Call(*id, *v)),
@@ -145,10 +203,6 @@ fn project(ex: &Exec, own: &Owners, x: u8) -> (VecDeque<GuideRec>, Vec<Ev>) {
     renumber_errs(&mut out);
     // choices projection
     let mut guide = VecDeque::new();
-    // owner of a SpawnRes choice: the top-level event in which it was made
-    let top_at = |tpos: u32| -> Option<EvId> {
-        ex.trace[..(tpos as usize).min(ex.trace.len())].iter().rev().find_map(|e| if let Ev::Top(t) = e { Some(*t) } else { None })
-    };
     for c in &ex.choices {
         let rec = match c.what {
             What::Event => {
@@ -159,14 +213,45 @@ fn project(ex: &Exec, own: &Owners, x: u8) -> (VecDeque<GuideRec>, Vec<Ev>) {
                     Some(t) => Some(GuideRec { kind: c.kind, what: What::Event, n: 0, pick: 0, menu: [0; 8], target: Some(t) }),
                 }
             },
-            What::React(p, mk) => r.probe(p).map(|p| GuideRec { kind: c.kind, what: What::React(p, mk), n: c.n, pick: c.pick, menu: c.menu, target: None }),
-            What::React2(p, mk) => r.probe(p).map(|p| GuideRec { kind: c.kind, what: What::React2(p, mk), n: c.n, pick: c.pick, menu: c.menu, target: None }),
+            What::React(p, mk) | What::React2(p, mk) => {
+                let is2 = matches!(c.what, What::React2(..));
+                let is_cross = |code: u8| (opt::PULL_OTHER0..opt::PULL_OTHER0 + 8).contains(&code) || code == opt::SUBSCRIBE_NEXT || (opt::DISPOSE_OTHER0..opt::DISPOSE_OTHER0 + 6).contains(&code);
+                let picked = c.menu[(c.pick as usize).min(7)];
+                if p == x {
+                    // X's own view: cross options do not exist in its solo world; having used one is
+                    // "did nothing" as far as X's subscription is concerned
+                    let mut m2 = [0u8; 8];
+                    let mut n2 = 0usize;
+                    let mut pick2 = 0u16;
+                    for k in 0..(c.n as usize).min(8) {
+                        if !is_cross(c.menu[k]) {
+                            if k == c.pick as usize {
+                                pick2 = n2 as u16;
+                            }
+                            m2[n2] = c.menu[k];
+                            n2 += 1;
+                        }
+                    }
+                    if n2 < 2 {
+                        None
+                    } else {
+                        let w = if is2 { What::React2(0, mk) } else { What::React(0, mk) };
+                        Some(GuideRec { kind: c.kind, what: w, n: n2 as u16, pick: pick2, menu: m2, target: None })
+                    }
+                } else if (opt::PULL_OTHER0..opt::PULL_OTHER0 + 8).contains(&picked) && picked - opt::PULL_OTHER0 == x {
+                    Some(GuideRec { kind: Kind::Event, what: What::Event, n: 0, pick: 0, menu: [0; 8], target: Some(EvId::ProbePull(0)) })
+                } else if (opt::DISPOSE_OTHER0..opt::DISPOSE_OTHER0 + 6).contains(&picked) && picked - opt::DISPOSE_OTHER0 == x {
+                    Some(GuideRec { kind: Kind::Event, what: What::Event, n: 0, pick: 0, menu: [0; 8], target: Some(EvId::ProbeTerm(0)) })
+                } else {
+                    None
+                }
+            },
             What::Greet(s) => r.sub(s).map(|s| GuideRec { kind: c.kind, what: What::Greet(s), n: c.n, pick: c.pick, menu: c.menu, target: None }),
             What::Burst(s) => r.sub(s).map(|s| GuideRec { kind: c.kind, what: What::Burst(s), n: c.n, pick: c.pick, menu: c.menu, target: None }),
             What::OnPull(s) => r.sub(s).map(|s| GuideRec { kind: c.kind, what: What::OnPull(s), n: c.n, pick: c.pick, menu: c.menu, target: None }),
             What::Pick(s) => r.sub(s).map(|s| GuideRec { kind: c.kind, what: What::Pick(s), n: c.n, pick: c.pick, menu: c.menu, target: None }),
-            What::SpawnRes(t) => match top_at(c.tpos) {
-                Some(EvId::Subscribe(p)) if p == x => Some(GuideRec { kind: c.kind, what: What::SpawnRes(r.tasks_before(t)), n: c.n, pick: c.pick, menu: c.menu, target: None }),
+            What::SpawnRes(t) => match subscribing_probe_at(ex, c.tpos as usize) {
+                Some(p) if p == x => Some(GuideRec { kind: c.kind, what: What::SpawnRes(r.tasks_before(t)), n: c.n, pick: c.pick, menu: c.menu, target: None }),
                 _ => None,
             },
             What::Sched => None,
